@@ -89,7 +89,13 @@ def check(ctx):
     # only after the relative-Location defaulting has been decided
     ctx.rule("T3-defaulted", "in Patron.redirect scheme/hostname/port are read only after the `Location has no hostname` defaulting")
     dt = V.ptests("not hostname")
-    V.need(dt, "`if not hostname` defaulting test in Patron.redirect")
+    if not dt:
+        # the defaulting is not written as an `if` (e.g. `x = splits.x or self.requester.x`): the D7-relative and T8-absolute
+        # rules above judge that form; there is no decision point to order the reads against
+        ctx.ok("T3-defaulted", rd, "no `if not hostname` decision point: defaulting judged by D7-relative/T8-absolute")
+        from .c30 import plus_decoders
+        plus_decoders(ctx, "T3-chain")
+        return
     tnode = dt[0][0]
     inside = {id(x) for x in ast.walk(tnode.ast)}       # the defaulting `if` itself (test + arms)
     late = True
